@@ -15,7 +15,8 @@ class C15(Check):
         "{none, member without owner, owner of groupOptional T/F, member of a group whose owner has groupOptional "
         "T/F and enabled T/F/absent} x dependency {none, bool driver T/F, optional driver enabled T/F/absent} x "
         "dependencyType {absent, enabled, disabled} = 2880 rows, each crossed with value {None, valid, invalid} "
-        "on InputValidation.validate and validate_data"
+        "on InputValidation.validate and validate_data; plus the grid form kind (13) x value case x API "
+        "{construction, validate_data, data setter, set_data_value} x identifier presentation {UUID, entity, text}"
     )
     rule = (
         "(a) every row of the switch table (enumerated, exhaustive): verdict for None / a valid / an invalid "
@@ -43,10 +44,11 @@ class C15(Check):
     ]
 
     def strategy(self, tier):
-        return st.one_of(uijson.pair_strategy(), uijson.history_strategy(), uijson.history_strategy())
+        return st.one_of(uijson.pair_strategy(), uijson.pair_strategy(), uijson.history_strategy(),
+                         uijson.history_strategy(), uijson.history_strategy())
 
     def enumerated(self, tier):
-        return uijson.table_rows()
+        return uijson.table_rows() + uijson.pair_grid()
 
     def run_case(self, program):
         res = CaseResult()
